@@ -498,8 +498,41 @@ def probe_moz_setters(ctx, res):
                  "ev.X_MOZ_LASTACK = utc datetime", observed=[o, o2])
 
 
+def probe_utc_setters(ctx, res):
+    """an acknowledgement given as a zoned wall clock (the second pass through a repeated hour, fractions of a second)
+    is stored as the same instant by every UTC-property setter"""
+    import icalendar
+    from zoneinfo import ZoneInfo
+    vals = []
+    for zone, base in (("Europe/Berlin", datetime(2021, 10, 31, 0, 40, tzinfo=timezone.utc)),
+                       ("America/New_York", datetime(2021, 11, 7, 5, 40, tzinfo=timezone.utc)),
+                       ("Europe/Berlin", datetime(2021, 6, 1, 9, 0, tzinfo=timezone.utc))):
+        for k in range(0, 5):
+            for us in (0, 250000):
+                vals.append((base + timedelta(minutes=20 * k, microseconds=us)).astimezone(ZoneInfo(zone)))
+    targets = [("Alarm", "ACKNOWLEDGED"), ("Event", "DTSTAMP"), ("Event", "LAST_MODIFIED"), ("Todo", "X_MOZ_LASTACK"),
+               ("Event", "X_MOZ_SNOOZE_TIME"), ("Journal", "DTSTAMP")]
+    for v in vals:
+        want = v.astimezone(timezone.utc)
+        for clsname, attr in targets:
+            c = getattr(icalendar, clsname)()
+            res.count((clsname, attr, v.isoformat(), v.fold), nontrivial=bool(v.fold or v.microsecond))
+            try:
+                setattr(c, attr, v)
+                got = getattr(c, attr)
+            except Exception as e:
+                res.fail("C15: a UTC-property setter refuses a zoned date-time", [clsname, attr, v.isoformat(), v.fold],
+                         observed=type(e).__name__ + ": " + str(e))
+                continue
+            if got is None or got.utcoffset() != timedelta(0) or abs(got - want) >= timedelta(seconds=1):
+                res.fail("C15: %s.%s set to a zoned date-time reads back as another instant (an acknowledgement in the "
+                         "repeated hour would land an hour early)" % (clsname, attr),
+                         {"set": v.isoformat(), "fold": v.fold}, expected=want.isoformat(), observed=str(got))
+
+
 def run(ctx, res):
     _run_main(ctx, res)
+    probe_utc_setters(ctx, res)
     import icalendar
     for provider in ("zoneinfo", "pytz"):
         getattr(icalendar, "use_" + provider)()
